@@ -495,7 +495,24 @@ func ruleClientsConsistent(c *Ctx) {
 			if f, ok := calleeObj(info, call).(*types.Func); ok && f.Name() == "Equal" && recvTypeName(f) == "clientParams" {
 				se := ast.Unparen(call.Fun).(*ast.SelectorExpr)
 				o, path := selectorPath(info, se.X)
-				if o == val && strings.Join(path, ".") == "params" && len(call.Args) == 1 && objOfIdent(info, call.Args[0]) == p {
+				// the session being compared: the loop's value, or the table looked up again under the loop's key
+				// (`state, ok := s.cs[id]` in a helper spliced in, id standing for the key)
+				isVal := o == val
+				if !isVal && o != nil && key != nil {
+					ast.Inspect(fi.Decl.Body, func(m ast.Node) bool {
+						as, ok := m.(*ast.AssignStmt)
+						if !ok || len(as.Rhs) != 1 || len(as.Lhs) == 0 || objOfIdent(info, as.Lhs[0]) != o {
+							return true
+						}
+						if ie, ok := ast.Unparen(as.Rhs[0]).(*ast.IndexExpr); ok && types.ExprString(ie.X) == types.ExprString(loop.X) {
+							if ko := objOfIdent(info, ie.Index); ko != nil && frameArgRoot(info, fi.Decl, ko) == frameArgRoot(info, fi.Decl, key) {
+								isVal = true
+							}
+						}
+						return true
+					})
+				}
+				if isVal && strings.Join(path, ".") == "params" && len(call.Args) == 1 && frameArgRoot(info, fi.Decl, objOfIdent(info, call.Args[0])) == frameArgRoot(info, fi.Decl, p) {
 					out = append(out, Event{Kind: "equal", Node: call})
 				} else {
 					out = append(out, Event{Kind: "equal-other", Node: call})
